@@ -95,7 +95,9 @@ def run(ctx):
         tag = ("rvalue" if rv else "lvalue") + (":callable" if calls_it else ":value")
         if not calls_it:
             pt = (f.params[1].get("type") or "").strip()
-            ctx.check(pt.endswith("&"), "R05.7", f, "operand-by-reference:" + tag + "@%s" % f.line,
+            # (a pointer, a pointer to function - a stream manipulator - or an arithmetic value has no derived part to lose)
+            unsliceable = bool(f.params[1].get("bits")) or pt.endswith("*") or "(*)" in pt or pt in ("bool", "double", "float", "long double", "char")
+            ctx.check(pt.endswith("&") or unsliceable, "R05.7", f, "operand-by-reference:" + tag + "@%s" % f.line,
                       "the overload takes the streamed item as `%s %s`, a copy of its static type: an object streamed through a base-class reference is sliced before it is inserted, "
                       "so the message differs from inserting the item itself (and from the other syntactic form)" % (pt, tname), f, why_ok=pt)
         rets = [fmt(ir.unwrap(e["expr"].get("e"))) for _, _, e in f.roots() if e["expr"].get("k") == "return"]
